@@ -5,6 +5,7 @@ package h
 
 import (
 	"fmt"
+	"image"
 	"image/color"
 	"math"
 	"strings"
@@ -24,6 +25,7 @@ type Call struct {
 	Pal      [64]color.RGBA
 	U8       uint8
 	B        bool
+	Rect     image.Rectangle // rast: SetRasterizer with a fresh rasteriser over this rectangle (renderer histories only)
 }
 
 func HexF32(f float32) string { return fmt.Sprintf("%08x", math.Float32bits(f)) }
@@ -116,6 +118,8 @@ func (c Call) String() string {
 		return c.Name
 	case "hires":
 		return "hires " + B01(c.B)
+	case "rast":
+		return fmt.Sprintf("rast %d %d %d %d", c.Rect.Min.X, c.Rect.Min.Y, c.Rect.Max.X, c.Rect.Max.Y)
 	case "A", "a":
 		return fmt.Sprintf("%s %s %s %s %s %s %s %s", c.Name, HexF32(c.F[0]), HexF32(c.F[1]), HexF32(c.F[2]), B01(c.La), B01(c.Sw), HexF32(c.F[3]), HexF32(c.F[4]))
 	default:
@@ -190,6 +194,8 @@ func (c Call) Apply(d ivg.Destination) {
 		d.AbsArcTo(f[0], f[1], f[2], c.La, c.Sw, f[3], f[4])
 	case "a":
 		d.RelArcTo(f[0], f[1], f[2], c.La, c.Sw, f[3], f[4])
+	case "rast":
+		// history-only operation of renderer cases; no Destination method
 	default:
 		panic("Apply: not a Destination call: " + c.Name)
 	}
